@@ -66,6 +66,7 @@ type WriteRec struct {
 	Data      []byte
 	Delivered int    // bytes delivered to the client before this write
 	State     string // device state label before the write (if the device exposes one)
+	SentAfter int    // total bytes the device had emitted after reacting to this write
 	Thread    int
 }
 
@@ -93,6 +94,7 @@ type FakeTransport struct {
 	OpenErr    error
 
 	pending   []byte
+	sent      int
 	Delivered int
 	req       *readReq
 	closed    bool
@@ -120,7 +122,9 @@ func (t *FakeTransport) Open(_ *transport.Args) error {
 	if t.OpenErr != nil {
 		return t.OpenErr
 	}
-	t.pending = append(t.pending, t.Dev.Connect()...)
+	c := t.Dev.Connect()
+	t.pending = append(t.pending, c...)
+	t.sent += len(c)
 	return nil
 }
 
@@ -138,7 +142,7 @@ func (t *FakeTransport) IsAlive() bool { return !t.closed }
 func (t *FakeTransport) Release() { t.StallAt = -1 }
 
 // Inject appends unsolicited device output.
-func (t *FakeTransport) Inject(b []byte) { t.pending = append(t.pending, b...) }
+func (t *FakeTransport) Inject(b []byte) { t.pending = append(t.pending, b...); t.sent += len(b) }
 
 // Pending returns the bytes produced by the device and not yet delivered.
 func (t *FakeTransport) Pending() int { return len(t.pending) }
@@ -182,6 +186,8 @@ func (t *FakeTransport) Write(b []byte) error {
 	}
 	out := t.Dev.React(b)
 	t.pending = append(t.pending, out...)
+	t.sent += len(out)
+	t.Writes[idx].SentAfter = t.sent
 	return nil
 }
 
